@@ -533,8 +533,10 @@ def c_driver(model, out_text):
     L.append("static void ev(int k, int id) { if (g_nev < 64) { g_ev[g_nev] = k; g_evid[g_nev] = id; g_nev++; } }")
     L.append("static int g_inst_marker; static int g_ctx_marker;")
     L.append("static void mock_box_drop(void *p) { ev(EV_BOXDROP, p == (void *)&g_inst_marker); }")
-    L.append("static const void *mock_arc_clone(const void *p) { ev(EV_CTXCLONE, p == (const void *)&g_ctx_marker); return p; }")
-    L.append("static void mock_arc_drop(const void *p) { ev(EV_CTXDROP, p == (const void *)&g_ctx_marker); }")
+    # a clone is a handle of its own: which handle gets released is part of the accounting
+    L.append("static int g_ctx_clone_marker;")
+    L.append("static const void *mock_arc_clone(const void *p) { ev(EV_CTXCLONE, p == (const void *)&g_ctx_marker); return (const void *)&g_ctx_clone_marker; }")
+    L.append("static void mock_arc_drop(const void *p) { ev(EV_CTXDROP, p == (const void *)&g_ctx_marker ? 1 : (p == (const void *)&g_ctx_clone_marker ? 2 : 0)); }")
     L.append("static bool mock_cb(void *c, struct Pair p) { (void)c; (void)p; return true; }")
     L.append("static void poison_stack(void) { volatile unsigned char junk[4096]; memset((void *)junk, 0xAB, sizeof(junk)); }")
     sid = 0
@@ -665,7 +667,7 @@ DOC_CSLICEREF = """/**
  */
 """
 
-CPP_TY = {"struct Pair": "Pair", "struct CSliceRef_u8": "CSliceRef<uint8_t>"}
+CPP_TY = {"struct Pair": "Pair", "struct CSliceRef_u8": "CSliceRef<uint8_t>", "struct CSliceRef_CSliceRef_u8": "CSliceRef<CSliceRef<uint8_t>>", "struct Duo_CSliceRef_u8_u32": "Duo<CSliceRef<uint8_t>, uint32_t>"}
 CPP_INST = {"Box": "CBox<void>", "Mut": "void *", "Ref": "const void *"}
 CPP_CTX = {"Arc": "CArc<void>", "None": "void"}
 
@@ -705,7 +707,8 @@ def render_cpp(model):
             if t not in used_traits:
                 used_traits.append(t)
     uses_cb = any(k == "callback" for t in used_traits for me in model.traits[t].methods for (_, _, k) in me.args)
-    uses_slice = any(k == "slice" for t in used_traits for me in model.traits[t].methods for (_, _, k) in list(me.args) + [(None, None, me.ret[1])])
+    uses_duo = any(k == "duo" for t in used_traits for me in model.traits[t].methods for (_, _, k) in me.args)
+    uses_slice = uses_duo or any(k in ("slice", "slice2") for t in used_traits for me in model.traits[t].methods for (_, _, k) in list(me.args) + [(None, None, me.ret[1])])
     has_obj = any(i.kind == "obj" for i in model.insts)
     for t in sorted(used_traits):
         add(DOC_RETTMP_ZST + f"template<typename CGlueCtx = void>\nstruct {t}RetTmp;\n")
@@ -725,6 +728,8 @@ def render_cpp(model):
         add(f"struct {n} {{\n{body}}};\n")
     if uses_slice:
         add(DOC_CSLICEREF + "template<typename T>\nstruct CSliceRef {\n    const T *data;\n    uintptr_t len;\n};\n")
+    if uses_duo:
+        add("template<typename A, typename B>\nstruct Duo {\n    A a;\n    B b;\n};\n")
     if uses_cb:
         add("template<typename T, typename F>\nstruct Callback {\n    T *context;\n    bool (*func)(T*, F);\n};\n")
         add("template<typename T>\nusing OpaqueCallback = Callback<void, T>;\n")
@@ -804,6 +809,12 @@ def gen_model_cpp(rng):
         t.rettmp_sized = False   # (sized RetTmp fields in C++ containers are not modelled)
     for txt in rng.sample(FOREIGN_POOL_CPP, rng.randint(0, 5)):
         m.foreign.append((rng.random(), txt))
+    # argument types that nest templates two deep (a slice of slices), as cbindgen prints them
+    for t in m.traits.values():
+        for me in t.methods:
+            me.args = [(("struct CSliceRef_CSliceRef_u8", n, "slice2") if (k == "slice" and rng.random() < 0.5) else (ty, n, k)) for (ty, n, k) in me.args]
+            # .. and with a comma behind the inner template (a two-parameter user template over a slice)
+            me.args = [(("struct Duo_CSliceRef_u8_u32", n, "duo") if (k == "pair" and rng.random() < 0.5) else (ty, n, k)) for (ty, n, k) in me.args]
     m.cpp_maybe_uninit = rng.random() < 0.85
     m.config = {k: v for k, v in m.config.items() if k != "function_prefix"}   # (C only)
     return m
@@ -832,6 +843,10 @@ def cpp_arg_value(model, ctype, kind, k):
         return f"Pair{{ {7 + k}u, 0x998877665544{k:02x}ull }}"
     if kind == "slice":
         return f"mk_slice(g_buf + {k}, {3 + k})"
+    if kind == "slice2":
+        return f"mk_slice2(g_buf + {k}, {3 + k})"
+    if kind == "duo":
+        return f"mk_duo(g_buf + {k}, {3 + k})"
     if kind == "ptr":
         return f"&g_words[{k}]"
     if kind == "callback":
@@ -858,6 +873,9 @@ def cpp_driver(model, out_text):
         L.append(f"static OpaqueCallback<{cbp}> mk_cb(void *c) {{ OpaqueCallback<{cbp}> r; r.context = c; r.func = mock_cb; return r; }}")
     if uses_slice:
         L.append("static CSliceRef<uint8_t> mk_slice(const uint8_t *p, uintptr_t n) { CSliceRef<uint8_t> r; r.data = p; r.len = n; return r; }")
+        if "struct Duo" in out_text:
+            L.append("static Duo<CSliceRef<uint8_t>, uint32_t> mk_duo(const uint8_t *p, uintptr_t n) { Duo<CSliceRef<uint8_t>, uint32_t> r; r.a.data = p; r.a.len = n; r.b = 0xD00u + (uint32_t)n; return r; }")
+        L.append("static CSliceRef<CSliceRef<uint8_t>> mk_slice2(const uint8_t *p, uintptr_t n) { CSliceRef<CSliceRef<uint8_t>> r; r.data = (const CSliceRef<uint8_t> *)p; r.len = n; return r; }")
     L.append("static void poison_stack(void) { volatile unsigned char junk[4096]; memset((void *)junk, 0xAB, sizeof(junk)); }")
 
     def a_check(ctype, kind, name, k):
@@ -867,6 +885,10 @@ def cpp_driver(model, out_text):
             return f"({name}.a == {7 + k}u && {name}.b == 0x998877665544{k:02x}ull)"
         if kind == "slice":
             return f"({name}.data == g_buf + {k} && {name}.len == {3 + k})"
+        if kind == "duo":
+            return f"({name}.a.data == g_buf + {k} && {name}.a.len == {3 + k} && {name}.b == 0xD00u + {3 + k})"
+        if kind == "slice2":
+            return f"((const void *){name}.data == (const void *)(g_buf + {k}) && {name}.len == {3 + k})"
         if kind == "ptr":
             return f"({name} == &g_words[{k}])"
         if kind == "callback":
@@ -911,10 +933,10 @@ def cpp_driver(model, out_text):
     L.append("")
     L.append("#define RESET() do { g_nev = 0; g_cont = 0; g_args_ok = -1; g_inst_ok = -1; poison_stack(); } while (0)")
     L.append("static void report(const char *tag, int inst, const char *trait, const char *meth, const char *wrapper, int want_sid, const void *want_cont, int ret_ok, int vt_ok) {")
-    L.append('    int slots = 0, sid = -1, bd = 0, cc = 0, cd = 0, order_ok = 1, seen_slot = 0, i;')
-    L.append("    for (i = 0; i < g_nev; i++) { if (g_ev[i] == EV_SLOT) { slots++; sid = g_evid[i]; seen_slot = 1; } if (g_ev[i] == EV_BOXDROP) bd++; if (g_ev[i] == EV_CTXCLONE) { cc++; if (seen_slot) order_ok = 0; } if (g_ev[i] == EV_CTXDROP) cd++; }")
+    L.append('    int slots = 0, sid = -1, bd = 0, cc = 0, cd = 0, cdo = 0, cdc = 0, order_ok = 1, seen_slot = 0, i;')
+    L.append("    for (i = 0; i < g_nev; i++) { if (g_ev[i] == EV_SLOT) { slots++; sid = g_evid[i]; seen_slot = 1; } if (g_ev[i] == EV_BOXDROP) bd++; if (g_ev[i] == EV_CTXCLONE) { cc++; if (seen_slot) order_ok = 0; } if (g_ev[i] == EV_CTXDROP) { cd++; if (g_evid[i] == 1) cdo++; if (g_evid[i] == 2) cdc++; } }")
     L.append("    if (g_nev > 0 && cc > 0 && g_ev[g_nev - 1] != EV_CTXDROP) order_ok = 0;")
-    L.append('    printf("%s inst=%d trait=%s meth=%s wrapper=%s slots=%d sid=%d want=%d cont_ok=%d inst_ok=%d args_ok=%d ret_ok=%d vt_ok=%d boxdrops=%d ctxclones=%d ctxdrops=%d order_ok=%d\\n", tag, inst, trait, meth, wrapper, slots, sid, want_sid, want_cont ? (g_cont == want_cont) : 1, g_inst_ok, g_args_ok, ret_ok, vt_ok, bd, cc, cd, order_ok);')
+    L.append('    printf("%s inst=%d trait=%s meth=%s wrapper=%s slots=%d sid=%d want=%d cont_ok=%d inst_ok=%d args_ok=%d ret_ok=%d vt_ok=%d boxdrops=%d ctxclones=%d ctxdrops=%d ctxdrops_orig=%d ctxdrops_clone=%d order_ok=%d\\n", tag, inst, trait, meth, wrapper, slots, sid, want_sid, want_cont ? (g_cont == want_cont) : 1, g_inst_ok, g_args_ok, ret_ok, vt_ok, bd, cc, cd, cdo, cdc, order_ok);')
     L.append("    fflush(stdout);")
     L.append("}")
     for ii, inst in enumerate(model.insts):
@@ -945,13 +967,23 @@ def cpp_driver(model, out_text):
                 wname = f"{t.lower()}_{me.name}" if shared else me.name
                 plan.append({"inst": ii, "trait": t, "meth": me.name, "recv": me.recv, "ret": me.ret[1], "cands": [wname], "sid": want, "shared_name": shared})
                 args = ", ".join(cpp_arg_value(model, ty, k, j) for j, (ty, n, k) in enumerate(me.args))
+                own = me.recv == "own"
                 L.append("    {")
+                if own:
+                    # the moved-from object goes out of scope before the events are counted: its
+                    # destructor must find nothing left to release
+                    L.append("        int ret_ok_ = 1;")
+                    L.append("        {")
                 L.append(f"        Obj{ii} o; build_{ii}(o);")
                 L.append("        RESET();")
                 recv = "std::move(o)" if me.recv == "own" else ("const_cast<const Obj%d &>(o)" % ii if me.recv == "const" else "o")
                 call = f"{recv}.{wname}({args})"
                 want_cont = "0" if me.recv == "own" else "&o.container"
-                if me.ret[1] == "void":
+                if me.ret[1] == "void" and own:
+                    L.append(f"        {call};")
+                    L.append("        }")
+                    L.append(f'        report("CALL", {ii}, "{t}", "{me.name}", "{wname}", {want}, {want_cont}, 1, 1);')
+                elif me.ret[1] == "void":
                     L.append(f"        {call};")
                     L.append(f'        report("CALL", {ii}, "{t}", "{me.name}", "{wname}", {want}, {want_cont}, 1, 1);')
                 elif me.ret[1] == "self":
@@ -972,8 +1004,14 @@ def cpp_driver(model, out_text):
                         rc = f"(r.a == {900 + want}u && r.b == {want}ull)"
                     else:
                         rc = f"(r.data == g_buf + 1 && r.len == {want + 1})"
-                    L.append(f'        report("CALL", {ii}, "{t}", "{me.name}", "{wname}", {want}, {want_cont}, {rc}, 1);')
-                L.append("        o.container.forget();")
+                    if own:
+                        L.append(f"        ret_ok_ = {rc};")
+                        L.append("        }")
+                        L.append(f'        report("CALL", {ii}, "{t}", "{me.name}", "{wname}", {want}, {want_cont}, ret_ok_, 1);')
+                    else:
+                        L.append(f'        report("CALL", {ii}, "{t}", "{me.name}", "{wname}", {want}, {want_cont}, {rc}, 1);')
+                if not own:
+                    L.append("        o.container.forget();")
                 L.append("    }")
         # the generated drop helper of a C++ object is its destructor
         plan.append({"inst": ii, "trait": inst.name, "meth": "drop", "recv": "own", "ret": "void", "cands": ["~"], "sid": 0, "drop": True})
